@@ -848,7 +848,10 @@ fn c05_client(case: &Case) {
     // the reader stalls after `stall_after` bytes for `stall_ms` (or forever)
     let stall = simkernel::choose(3) != 0;
     let stall_after = pick(&[0usize, 10, 47, 48, 100, 5_000, 20_000]);
-    let mut stall_ms = pick(&[0u64, 3, 20, 200, u64::MAX]);
+    // (one value sits between one and two write timeouts: a writer that gave up once would get
+    // through on a second try)
+    let between = write_timeout.map(|d| d.as_millis() as u64 * 3 / 2).unwrap_or(7).max(2);
+    let mut stall_ms = pick(&[0u64, 3, 20, 200, between, between, u64::MAX]);
     if write_timeout.is_none() && stall_ms == u64::MAX {
         // without a write timeout a permanently stalled peer legitimately blocks writers
         // forever (TCP back-pressure); bound the stall so the run can finish
